@@ -6,7 +6,7 @@ import re
 
 from kvstatic.core import Repo, Report, ModelError, AnchorError, norm
 from kvstatic import grammar
-from kvstatic.paths import cz
+from kvstatic.paths import cz, czs
 from kvstatic.astutil import find_all, attr_chain, is_name, call_name, body_no_doc, target_names, walk_no_nested_funcs, renamed, parents
 
 
@@ -307,7 +307,11 @@ def twins(rep, mod, methods):
         d = next((i for i, (x, y) in enumerate(zip(a, b)) if x != y), 0)
         rep.violate('C20.twins', mod, methods['nets_stmt'], body_no_doc(methods['nets_stmt'])[d], 'nets_stmt and spnets_stmt differ beyond the section they store into', witness={'special': a[d] if d < len(a) else None, 'regular': b[d] if d < len(b) else None}, node=methods['nets_stmt'])
     t = a
-    ok = "ifarg[0]=='__pin__':dnet.pins.append(arg[1])else:setattr(dnet,arg[0],arg[1])" in ''.join(t)
+    ok = czs("""
+        for arg in args[1:]:
+            if arg[0] == '__pin__': dnet.pins.append(arg[1])
+            else: setattr(dnet, arg[0], arg[1])
+        """) in t
     rep.ob('C20.twins', 'net statements: pins appended, options stored by keyword', ok)
     if not ok:
         rep.violate('C20.twins', mod, methods['nets_stmt'], 'pin/option dispatch', 'net statements must append (instance, pin) pairs to dnet.pins and store every other child under its lower-cased keyword', node=methods['nets_stmt'])
